@@ -133,7 +133,7 @@ func C04(r *Run) {
 			}
 			style := ""
 			if g.P(0.3) {
-				style = g.Pick([]string{"flow", "anchors", "merge", "dotted", "inline"})
+				style = g.Pick([]string{"flow", "anchors", "merge", "dotted", "inline", "docstart", "plus"})
 			}
 			l := &layout{Fs: map[string]fsx.Entry{}, Root: "/"}
 			name := "a"
